@@ -27,5 +27,6 @@ RULES = [
     ("C08.iter", lambda c, r: lfht.rule_iter(c, r, "C08.iter")),
     ("C08.bounds", lambda c, r: c09.rule_pow2(c, r, "C08")),
     ("C08.emptywalk", lambda c, r: lfht.rule_emptywalk(c, r, "C08.emptywalk")),
+    ("C08.wqguard", lambda c, r: lfht.rule_wqguard(c, r, "C08.wqguard")),
 ]
 FLOORS = {}
